@@ -352,6 +352,7 @@ def _case(draw, pid, tier):
                 "param": draw(st.integers(0, 1000)),
                 "order": draw(ORDER),
                 "order2": draw(ORDER),
+                "all_algos": draw(st.booleans()),
             })
         else:
             what = "binarize" if (polytomy and draw(st.booleans())) else "generate_all"
@@ -1284,6 +1285,21 @@ def do_inplace(run, slots, slot, op, idx, regime):
 
 
 def do_meta(run, slots, op, idx, regime):
+    if op.get("all_algos") and op["kind"] not in ("inplace",):
+        # the relation is checked for every solver the input is compatible with, not only
+        # for the drawn one (a relation fails for one algorithm in a hundred inputs or less)
+        slot = slots[op["input"] % len(slots)]
+        labelled = slot.spec["syn"] is not None
+        family = (["ext_spfs", "superdtl", "base_spfs", "base_uspfs"]
+                  if MODE[op["algo"]] is not None and labelled else
+                  (["thl"] if len(ref.nested_leaves(slot.spec["object"])) > 6 else ["thl", "exh"]))
+        for algo in family:
+            _do_meta(run, slots, dict(op, algo=algo), idx, regime)
+        return
+    _do_meta(run, slots, op, idx, regime)
+
+
+def _do_meta(run, slots, op, idx, regime):
     slot = slots[op["input"] % len(slots)]
     algo = op["algo"]
     mode = MODE[algo]
